@@ -29,6 +29,7 @@ var c07UIDClasses = []struct{ class, value string }{
 	{"valid32", "92FF8B766F327F48A256C3AE6DAE50D3"}, {"valid36", "92FF8B766F327F48A256C3AE6DAE50D3A114"},
 	{"valid-braces", "{92FF8B76-6F32-7F48-A256-C3AE6DAE50D3}"}, {"valid-lower", "92ff8b766f327f48a256c3ae6dae50d3"},
 	{"valid32", "EE13561DDB204985BFFDEEBF82A5226C"}, {"valid36", "EE13561DDB204985BFFDEEBF82A5226C5B2E"},
+	{"valid36-other-checksum", "92FF8B766F327F48A256C3AE6DAE50D30000"}, {"valid36-lower-checksum", "92FF8B766F327F48A256C3AE6DAE50D3a114"}, {"valid36-other-checksum", "EE13561DDB204985BFFDEEBF82A5226CFFFF"},
 	{"malformed", "not-a-uuid"}, {"malformed", "12345"}, {"malformed", "ZZFF8B766F327F48A256C3AE6DAE50D3"},
 	{"empty", ""},
 }
